@@ -228,7 +228,9 @@ type kase struct {
 	Targets  []string    `json:"targets,omitempty"`
 	// chain part: the loads of the chain, outermost first
 	Chain []chainStep `json:"chain,omitempty"`
-	Step  int         `json:"step,omitempty"`
+	// mutation part: the layout mutations applied, in order, before the probe
+	Mutations []string `json:"mutations,omitempty"`
+	Step      int      `json:"step,omitempty"`
 }
 
 // ---------------------------------------------------------------------------
@@ -425,22 +427,25 @@ type obs struct {
 }
 
 type worker struct {
-	sb      *sandbox
-	env     *el.Env
-	marks   []string
-	loc     string
-	used    bool
-	entry   int
-	asked   []string
-	dirFS   fs.FS                   // os.DirFS(B/root), as cmd/run.go builds it
-	progs   map[string]lisp.Program // loading files, parsed once per (location, content)
-	hlocs   []string                // history part: the locations a hist.lisp loader asks for
-	hasked  []int                   // history part: len(asked) when each nested operation started
-	chain   []chainStep             // chain part: the loads the link.lisp files still have to perform
-	clevel  int
-	cbase   map[string]string   // chain part: marks of the same chain driven by LoadFile / load-file only
-	sbase   map[string]string   // scope part: outcome of a single top-level load, per (configuration, file, primitive, target)
-	hstates map[string]struct{} // history part: canonical states seen by this worker
+	sb        *sandbox
+	env       *el.Env
+	marks     []string
+	loc       string
+	used      bool
+	entry     int
+	asked     []string
+	dirFS     fs.FS                   // os.DirFS(B/root), as cmd/run.go builds it
+	progs     map[string]lisp.Program // loading files, parsed once per (location, content)
+	hlocs     []string                // history part: the locations a hist.lisp loader asks for
+	hasked    []int                   // history part: len(asked) when each nested operation started
+	priv      string                  // mutation part: this worker's private temp tree
+	privBuilt string                  // ... the tree currently on disk (path) and its state
+	privState pstate
+	chain     []chainStep // chain part: the loads the link.lisp files still have to perform
+	clevel    int
+	cbase     map[string]string   // chain part: marks of the same chain driven by LoadFile / load-file only
+	sbase     map[string]string   // scope part: outcome of a single top-level load, per (configuration, file, primitive, target)
+	hstates   map[string]struct{} // history part: canonical states seen by this worker
 
 	// local counters, flushed at the end
 	outcomes map[outKey]int64
@@ -785,6 +790,9 @@ func runKase(sb *sandbox, cwd *node, k kase) (kind, class, expected, got string,
 	if k.Part == "chain" {
 		return runChainKase(sb, cwd, k)
 	}
+	if k.Part == "mutation" {
+		return runMutationKase(k)
+	}
 	var ph *phaseCfg
 	phases := append(append([]phaseCfg(nil), rflPhases...), fsPhase)
 	for i := range phases {
@@ -1018,7 +1026,7 @@ func run(r *core.Run) {
 	d.precheck(info)
 
 	// development aid: C20_PARTS=rfl,fs,history restricts the run (reported as capped)
-	parts := map[string]bool{"rfl": true, "fs": true, "history": true, "cwd": true, "scope": true, "chain": true}
+	parts := map[string]bool{"rfl": true, "fs": true, "history": true, "cwd": true, "scope": true, "chain": true, "mutation": true}
 	if s := os.Getenv("C20_PARTS"); s != "" {
 		parts = map[string]bool{}
 		for _, p := range strings.Split(s, ",") {
@@ -1168,6 +1176,11 @@ func run(r *core.Run) {
 	// ---- part six: chains of files loaded THROUGH the library, per entry point and spelling
 	if parts["chain"] && !r.Expired() && !r.Saturated() {
 		d.runChains(tot, info, &mu)
+	}
+
+	// ---- part seven: layout mutations between loads on one library instance
+	if parts["mutation"] && !r.Expired() && !r.Saturated() {
+		d.runMutations(tot, info, &mu)
 	}
 
 	// outcome classes: counted locally (a shared counter per case would serialise
